@@ -125,8 +125,93 @@ def sampling_count():
     return None
 
 
+def _mval(v):
+    if isinstance(v, dict):
+        return float(v.get('float', 0))
+    return float(v) if isinstance(v, (int, float)) else 0.0
+
+
+def _close(a, b):
+    import math
+    try:
+        a, b = float(a), float(b)
+    except (TypeError, ValueError):
+        return a == b
+    if math.isnan(a) or math.isnan(b) or math.isinf(a) or math.isinf(b):
+        return (math.isnan(a) or math.isinf(a)) == (math.isnan(b) or math.isinf(b))     # one non-finite value (A-1)
+    return abs(a - b) <= 1e-7 * max(1.0, abs(a), abs(b))
+
+
+def _spec(text, env):
+    import math
+    import contracts.C16 as K
+    g = dict(vars(K))
+    g.update(env, nan=float('nan'))
+    try:
+        return eval(text, g)
+    except ZeroDivisionError:
+        return float('nan')
+
+
+def run_metrics(pnls, types, fees, holds, balances, start=10000.0):
+    from native.world import session
+    from jesse.services import metrics
+    from jesse.store import store
+
+    class T_:
+        def __init__(self, d): self.to_dict = d
+    w = session('futures', leverage=1, balance=start)
+    store.app.starting_time = 1609459200000
+    trades = [T_({'id': j, 'type': types[j], 'PNL': pnls[j], 'fee': fees[j], 'holding_period': holds[j], 'size': 1.0, 'entry_price': 100.0})
+              for j in range(len(pnls))]
+    import warnings
+    with warnings.catch_warnings():
+        warnings.simplefilter('ignore')
+        m = metrics.trades(trades, list(balances))
+    finish = w['exchange'].assets['USDT']
+    return m, start, finish
+
+
+def metric_scenarios(pl):
+    """the verifier's counterexample (and a few fixed lists) through the real metrics.trades; every reported number is
+    compared with its definition"""
+    import contracts.C16 as K
+    task = pl.get('task', '')
+    model = {k.split('#')[0]: _mval(v) for k, v in (pl.get('model') or {}).items()}
+    cases = []
+    if task.startswith('metrics.trades.'):
+        types = ['long' if c == 'l' else 'short' for c in task.split('.')[-1]]
+        n = len(types)
+        cases.append(([model.get(f'pnl{j}', 0.0) for j in range(n)], types, [abs(model.get(f'fee{j}', 0.0)) for j in range(n)],
+                      [abs(model.get(f'hold{j}', 0.0)) for j in range(n)], [10000.0, 10100.0]))
+    if task.startswith('metrics.ratios.'):
+        d = int(task.split('.d')[-1])
+        cases.append(([5.0], ['long'], [0.1], [60.0], [model.get(f'b{j}', 100.0) or 100.0 for j in range(d)]))
+    cases += [([10.0, 0.0, -5.0, 15.0], ['long', 'short', 'long', 'short'], [0.1] * 4, [60.0, 120.0, 30.0, 45.0], [100.0, 90.0, 80.0, 85.0]),
+              ([-3.0, -4.0, 2.0], ['short', 'short', 'long'], [0.0] * 3, [10.0] * 3, [100.0, 90.0, 95.0]),
+              ([7.0], ['long'], [0.2], [300.0], [100.0, 110.0, 105.0, 120.0, 90.0])]
+    for pnls, types, fees, holds, balances in cases:
+        m, start, finish = run_metrics(pnls, types, fees, holds, balances)
+        env = dict(pnls=pnls, types=types, fees=fees, holds=holds, start=start, finish=finish, balances=balances, m=m)
+        for key, text in list(K.TRADE_METRICS.items()) + list(K.RATIO_METRICS.items()):
+            want = _spec(text, env)
+            if key not in m or not _close(m[key], want):
+                return (f'metrics.trades(pnls={pnls}, types={types}, daily balances={balances}): {key} = {m.get(key)!r} but its definition '
+                        f'({text}) gives {want!r}')
+        if m['max_drawdown'] > 1e-9:
+            return f'metrics.trades(daily balances={balances}): max_drawdown = {m["max_drawdown"]} is positive'
+    return None
+
+
 def replay(pl):
     ob = pl['obligation']
+    if ob.startswith('metrics.'):
+        try:
+            d = metric_scenarios(pl)
+        except Exception as ex:
+            import traceback
+            return {'confirmed': False, 'detail': None, 'error': f'{type(ex).__name__}: {ex} {traceback.format_exc()[-600:]}'}
+        return {'confirmed': bool(d), 'detail': d or 'every reported metric equals its definition on the probed lists'}
     if ob.startswith('daily.spot'):
         d = spot_daily_sample()
     elif ob.startswith('daily'):
